@@ -6,7 +6,7 @@
 #define T_TTL 2
 #define T_HAS_CLEAR 1
 #define T_HAS_UPDTTL 1
-using C = cappuccino::utlru_cache<uint64_t, uint64_t, cappuccino::thread_safe::TS>;
+using C = cappuccino::utlru_cache<uint64_t, VAL_T, cappuccino::thread_safe::TS>;
 #define DECL_C(c) C c(std::chrono::milliseconds{cfg_ttl}, HCAP)
 #else
 #include <cappuccino/tlru_cache.hpp>
@@ -14,7 +14,7 @@ using C = cappuccino::utlru_cache<uint64_t, uint64_t, cappuccino::thread_safe::T
 #define T_TTL 1
 #define T_HAS_CLEAR 0
 #define T_HAS_UPDTTL 0
-using C = cappuccino::tlru_cache<uint64_t, uint64_t, cappuccino::thread_safe::TS>;
+using C = cappuccino::tlru_cache<uint64_t, VAL_T, cappuccino::thread_safe::TS>;
 #define DECL_C(c) C c(HCAP)
 #endif
 #define T_POLICY P_LRU
@@ -27,9 +27,9 @@ using C = cappuccino::tlru_cache<uint64_t, uint64_t, cappuccino::thread_safe::TS
 static bool x_insert(C& c, uint64_t k, uint64_t v, uint8_t a, int64_t ttl)
 {
 #ifdef C_IS_UTLRU
-    return c.insert(k, v, (cappuccino::allow)a);
+    return c.insert(k, VAL_T(v), (cappuccino::allow)a);
 #else
-    return c.insert(std::chrono::milliseconds{ttl}, k, v, (cappuccino::allow)a);
+    return c.insert(std::chrono::milliseconds{ttl}, k, VAL_T(v), (cappuccino::allow)a);
 #endif
 }
 static bool x_erase(C& c, uint64_t k) { return c.erase(k); }
@@ -37,7 +37,7 @@ static void x_find(C& c, uint64_t k, bool pk, Res& r)
 {
     auto o = c.find(k, pk ? cappuccino::peek::yes : cappuccino::peek::no);
     r.ok   = o.has_value();
-    r.val  = r.ok ? *o : 0;
+    r.val  = r.ok ? val_u(*o) : 0;
     r.cnt  = 0;
 }
 #ifdef VF_REAL
@@ -76,7 +76,7 @@ static void alpha_real(C& c, Abs& a)
         if (slot >= c.m_elements.size()) { a.k[p] = 0xDEAD000000000000ULL + p; continue; }
         auto& e = c.m_elements[slot];
         a.k[p]  = key_of_slot(c, slot);
-        a.v[p]  = e.m_value;
+        a.v[p] = val_u(e.m_value);
         a.d[p]  = tp_i(e.m_expire_time);
         a.o2[p] = ttl_pos_of_slot(c, slot);
     }
